@@ -97,7 +97,7 @@ def run(ctx):
         for loop in regions[r].get("c", []):
             if loop is None or loop["k"] not in ("ForStmt", "CXXForRangeStmt", "WhileStmt"):
                 continue
-            ev = [(n, e) for n, e in C19.events(f, loop)
+            ev = [(n, e) for n, e in C19.events(f, loop, P)
                   if e.startswith("lookup ") or e.startswith("version.") or e == "empty-version"]
             side = {e.split()[1].split("->")[0] for _, e in ev if e.startswith("lookup ")}
             if len(side) != 1:
@@ -132,7 +132,7 @@ def run(ctx):
             other = "deletion" if side == "addition" else "addition"
             if not extra:
                 continue
-            evs = " ; ".join(sorted(extra.elements()))
+            evs = " ; ".join(sorted(set(extra.elements())))
             where = regions[r]
             for n, ev in nodes:
                 if ev.replace("first_->", "OTHER->").replace("second_->", "OTHER->") in extra:
